@@ -9,7 +9,7 @@ NOTE = ("trusted base: TLC/SANY, CommunityModules, JDK MessageDigest/AES and the
 CLAIMS = {
  "C01": ("model_checking", "TLC trace validation of recorded executions of all 28 hash family instances (+ isal_/legacy entry points) against the verdict spec HashAPI; expected digests computed by TLC from the TLA+ definition of the standard hashes (HashStd) over the stream the spec recorded", "5 C01", "TLA+ spec (HashAPI/HashStd) + TLC trace validation"),
  "C06": ("model_checking", "every recorded submit/flush event must be an action of HashAPI: returned context was held and leaves the manager, flush returns NULL iff nothing held, status idle/complete per LAST, foreign contexts/user data untouched, held <= lanes", "5 C06", "TLA+ spec (HashAPI) + TLC trace validation"),
- "C11": ("model_checking", "refused submits injected into valid histories; TLC decides from the spec state which calls must be refused, with which codes, that nothing but the error field changes and that later valid calls are not reported failed", "5 C11", "TLA+ spec (HashAPI) + TLC trace validation"),
+ "C11": ("model_checking", "refused submits injected into valid histories and the refusal matrix (every context state x every flags word, message finished afterwards); TLC decides from the spec state which calls must be refused, with which codes, that nothing but the error field changes and that later valid calls are not reported failed", "5 C11", "TLA+ spec (HashAPI) + TLC trace validation"),
  "C02": ("model_checking", "SP 800-38D written as an executable TLA+ definition (AesModes, FIPS 197 in Aes.tla); TLC recomputes ciphertext and tag of every recorded one-shot call over the enumerated call space of all four families x nt x key size x direction", "5 C02", "executable TLA+ definition + TLC trace validation"),
  "C07": ("model_checking", "GCM streaming state machine in TLA+ (position, ciphertext so far); TLC checks every update's output against the key stream at the spec's position and the final tag against the one-shot definition for the carry table, sub-block runs, counter-wrap sweep and random compositions, per family", "5 C07", "TLA+ state machine + TLC trace validation"),
  "C03": ("model_checking", "IEEE 1619 XTS incl. ciphertext stealing as an executable TLA+ definition; TLC recomputes every recorded call (3 families x raw/expanded x enc/dec x 2 key sizes x every tail class; lengths < 16 must leave buffers untouched)", "5 C03", "executable TLA+ definition + TLC trace validation"),
